@@ -265,7 +265,14 @@ fn run_check(id: &str, tier: &str) -> i32 {
                 continue;
             }
             let sig = if v.kind == "oracle" {
-                v.sig.clone()
+                // oracles shared between properties (e.g. the C03 judge used by C05/C12/C19) name
+                // their home property; the signature is filed under the property being checked
+                let b = v.sig.as_bytes();
+                if b.len() > 4 && b[0] == b'C' && b[1].is_ascii_digit() && b[2].is_ascii_digit() && b[3] == b'/' && !v.sig.starts_with(check.id) {
+                    format!("{}{}", check.id, &v.sig[3..])
+                } else {
+                    v.sig.clone()
+                }
             } else if oom {
                 format!("{}/out-of-memory/{}", check.id, st.space)
             } else {
